@@ -88,6 +88,17 @@ def gen_c19(rng):
     return args, {"proto": proto, "max_ttl": max_ttl, "queries": q, "e2e": e2e, "port": port}
 
 
+def gen_c07(rng):
+    """small ranges, many end-to-end probes, short timeouts: whatever the flags, replies that arrived are in the output"""
+    proto = rng.choice(["icmp", "icmp", "icmp", "udp", "tcp"])
+    max_ttl = rng.choice([1, 1, 2, 3, 10])
+    q = rng.choice([1, 3])
+    e2e = rng.choice([0, 1, 5, 8])
+    timeout = rng.choice([150, 300, 500])
+    args = ["--proto", proto, "--max-ttl", str(max_ttl), "-q", str(q), "-Q", str(e2e), "--port", "443", "--timeout", str(timeout)]
+    return args, {"proto": proto, "max_ttl": max_ttl, "queries": q, "e2e": e2e, "port": 443}
+
+
 def main():
     os.makedirs(OUT, exist_ok=True)
     t0 = time.time()
@@ -98,14 +109,14 @@ def main():
     except k.Infra as e:
         print("harness-infra: %s" % e)
         return 2
-    rng = random.Random(SEED * 104729 + (17 if PROP == "C17" else 19))
+    rng = random.Random(SEED * 104729 + int(PROP[1:]))
     n = int(os.environ.get("CLI_FLAGS_CASES", 40 if TIER == "quick" else 300))
     replay_args = None
     if os.environ.get("VERIF_REPLAY"):
         replay_args = json.load(open(os.environ["VERIF_REPLAY"]))["scenario"]
         n = 1
     spec = {"routers": 2, "port": 443, "port_open": True, "tcp_sack_off": False, "silent": [], "max_ttl_delta": 1, "queries": 1, "e2e": 0, "protos": ["udp"], "timeout_ms": 200, "concurrent_cli": False}
-    t = k.Topo(900 + (0 if PROP == "C17" else 1), spec)
+    t = k.Topo(900 + {"C17": 0, "C19": 1, "C07": 2}.get(PROP, 3), spec)
     violations, samples, labels, evals, nontrivial = [], [], {}, 0, 0
     infra = None
     try:
@@ -141,7 +152,7 @@ def main():
                     violations.append({"cmd": cmd, "msg": "%s: %s" % (cmd, bad), "args": args, "want": want})
                     break
             else:
-                args, want = gen_c19(rng)
+                args, want = gen_c19(rng) if PROP == "C19" else gen_c07(rng)
                 if replay_args:
                     args, want = replay_args["args"], replay_args["want"]
                 bad = None
@@ -163,7 +174,10 @@ def main():
                     if want["proto"] != "icmp" and doc["destination"].get("port") != want["port"]:
                         probs.append("destination port %r, asked %d" % (doc["destination"].get("port"), want["port"]))
                     hard = list(probs)
+                    topo = [t.router_addr(1, False), t.router_addr(2, False), t.dest_addr(False)][:exp]
                     for r in runs:
+                        if PROP == "C07" and len(r["hops"]) == exp and [h.get("ip_address") or None for h in r["hops"]] != topo:
+                            probs.append("a run reports %s; the routers and the destination answered every probe: %s" % ([h.get("ip_address") or None for h in r["hops"]], topo))
                         if len(r["hops"]) != exp:
                             probs.append("a run with %d entries; last TTL %d on a path of 2 routers + destination gives %d" % (len(r["hops"]), want["max_ttl"], exp))
                     bad = "; ".join(probs) if probs else None
@@ -184,6 +198,7 @@ def main():
     finally:
         t.down()
     rule = {"C17": "generated command lines for the binary built from the working tree, run in a namespace topology whose two routers have private addresses: 0..2 occurrences of --skip-private-hops (bare, =true, =false) among up to four other boolean flags spelt --flag=false, in random order around the value flags, udp / icmp / tcp; oracle: redaction is in force iff the last --skip-private-hops is not =false: then no hop of the printed document carries a private address, RTT, reachability or names, otherwise the routers' private addresses are shown; non-trivial = redaction in force with other boolean flags on the line",
+            "C07": "generated command lines for the binary built from the working tree on a path of two routers and a destination that all answer within microseconds: icmp (mostly), udp, tcp with last TTL 1 / 2 / 3 / 10, 1 or 3 runs, 0..8 end-to-end probes, timeouts 150..500 ms; oracle: the command succeeds and every run lists the routers and the destination that answered (replies that arrived well before any deadline are in the output whatever the combination of flags); non-trivial always",
             "C19": "generated command lines for the binary built from the working tree (protocol, last TTL, runs, end-to-end probes, port and timeout, each in --flag value, --flag=value or short form, in random order) on a path of two routers and a destination; oracle: the printed document has the protocol, the number of runs and end-to-end samples and the destination port that were asked for, and min(last TTL, 3) entries per run; non-trivial always"}[PROP]
     stats = {"prop": PROP, "name": NAME, "evaluations": evals, "distinct_nontrivial": nontrivial, "hashes": [], "extra_distinct": nontrivial, "labels": labels, "samples": samples, "rule": rule,
              "assumptions": ["real kernel and real time in the loop; a missing hop is retried up to 3 times, a wrong flag meaning is not"], "exhaustive": False, "excluded_known": 0, "known_findings_seen": [], "violations": len(violations)}
